@@ -23,8 +23,6 @@ func resultDigest(r *CallResult) []string {
 // campaignC18 runs several clients, each issuing Parse calls on the same
 // generated package, under the seeded scheduler and one shared simulated
 // pool, and compares every call with the same call executed alone.
-var cappedParsers = map[string]int{}
-
 func digestHash(d []string) string {
 	h := fnv.New64a()
 	for _, l := range d {
@@ -62,13 +60,6 @@ func campaignC18Solo(p *Parser, req *Request, resp *Response) {
 func campaignC18(p *Parser, req *Request, resp *Response) {
 	clients := req.Clients
 	stepCap := req.StepCap
-	if cappedParsers[p.Name] >= 2 && !req.UseReplay {
-		// this parser does not terminate on its own (a grammar whose recursion
-		// pigeon accepts but cannot bound: C07/C08 territory); unwinding a step-cap
-		// abort out of a very deep recursion is slow, so stop spending time on it
-		resp.stat("skipped_nonterminating_parser", 1)
-		return
-	}
 	h0 := DeepHash(p.G())
 	// 1. together
 	simsync.Reset(req.Pool)
@@ -157,7 +148,6 @@ func campaignC18(p *Parser, req *Request, resp *Response) {
 			if r.Aborted || r.Overflow {
 				resp.stat("solo_capped", 1)
 				resp.Notes = append(resp.Notes, fmt.Sprintf("solo run hit the step cap: parser %s flags %v input %q grammar %q", p.Name, p.Flags, c.Input, p.GrammarText))
-				cappedParsers[p.Name]++
 				return
 			}
 			solo[i][j] = r
